@@ -893,8 +893,10 @@ func (rule *RuleExpression) checkMatrixExpression(expr *String) *ObjectType {
 	incTy, ok := matTy.Props["include"]
 	if ok {
 		delete(matTy.Props, "include")
+		known := false
 		if a, ok := incTy.(*ArrayType); ok {
 			if o, ok := a.Elem.(*ObjectType); ok {
+				known = true
 				for n, p := range o.Props {
 					t, ok := matTy.Props[n]
 					if !ok {
@@ -903,6 +905,12 @@ func (rule *RuleExpression) checkMatrixExpression(expr *String) *ObjectType {
 					}
 					matTy.Props[n] = t.Merge(p)
 				}
+			}
+		}
+		if !known {
+			// Elements of include may overwrite any matrix values with values of unknown types
+			for n := range matTy.Props {
+				matTy.Props[n] = AnyType{}
 			}
 		}
 	}
@@ -958,6 +966,7 @@ func (rule *RuleExpression) checkMatrix(m *Matrix) *ObjectType {
 		return NewEmptyObjectType()
 	}
 
+	unknown := false
 	for _, combi := range m.Include.Combinations {
 		if combi.Expression != nil {
 			ty := rule.checkOneExpression(combi.Expression, "matrix combination at element of include section", "jobs.<job_id>.strategy")
@@ -969,6 +978,7 @@ func (rule *RuleExpression) checkMatrix(m *Matrix) *ObjectType {
 				o = merged.DeepCopy().(*ObjectType)
 			} else {
 				o.Loose()
+				unknown = true
 			}
 			continue
 		}
@@ -980,6 +990,13 @@ func (rule *RuleExpression) checkMatrix(m *Matrix) *ObjectType {
 				ty = t.Merge(ty)
 			}
 			o.Props[n] = ty
+		}
+	}
+
+	if unknown {
+		// The element of include may overwrite any matrix values with values of unknown types
+		for n := range o.Props {
+			o.Props[n] = AnyType{}
 		}
 	}
 
